@@ -60,7 +60,8 @@ def program_case(seed, feats_allowed=CORE, max_tasks=6, p=0.5, rng=None,
 def reference(case):
     prog = case['prog']
     main = prog['workflows'][0]
-    fn = gen.default_outcome_fn(case['outcome_seed'], case.get('p_err', 0.25))
+    fn = gen.default_outcome_fn(case['outcome_seed'], case.get('p_err', 0.25),
+                                special=case.get('outcome_special', True))
     overrides = case.get('outcomes') or {}
     if overrides:
         base = fn
@@ -246,9 +247,18 @@ def case_tags(case):
         dictpub = set()
         for t in w['tasks']:
             kind = (t.get('body') or {}).get('kind')
-            for key in ('publish', 'publish_on_error'):
-                for v, e in (t.get(key) or {}).items():
-                    if _has_dict(e) or (e[0] == 'res' and kind == 'wf'):
+            allpubs = [t.get('publish') or {}, t.get('publish_on_error') or {}]
+            for cl, adv in (t.get('adv_publish') or {}).items():
+                allpubs.append(adv.get('branch') or {})
+            for pd in allpubs[2:]:
+                for v in pd:
+                    pubs[v] = pubs.get(v, 0) + 1
+            for pd in allpubs:
+                for v, e in pd.items():
+                    if _has_dict(e) or (e[0] == 'res' and kind == 'wf') or \
+                            (e[0] == 'list' and any(
+                                x[0] == 'res' and kind == 'wf'
+                                for x in e[1])):
                         dictpub.add(v)
             if kind == 'wf':
                 tags.add('subwf')
